@@ -390,15 +390,17 @@ Definition vm_bf (nm : string) : value := gval (v_globals (mc_vm mc_after_first)
 Example C01_builtin_premises_hold : exists c m, bready vm_bf mc_after_first c m.
 Proof.
   destruct C01_demo_session_is_covered as [[c [m Hr]] _]. exists c, m. split; [exact Hr|].
-  intros nm b mo fid Hb Hbf. unfold bop_of_name in Hb.
-  destruct (String.eqb_spec nm "write") as [->|_]; [injection Hb as <-|
-    destruct (String.eqb_spec nm "toa") as [->|_]; [injection Hb as <-|
-      destruct (String.eqb_spec nm "aton") as [->|_]; [injection Hb as <-|discriminate Hb]]];
-    vm_compute in Hbf; injection Hbf as <- <-;
-    (eexists; eexists; eexists; eexists; eexists;
-     split; [vm_compute; reflexivity|]; split; [vm_compute; reflexivity|]; split; [vm_compute; reflexivity|];
-     split; [vm_compute; reflexivity|]; split; [vm_compute; reflexivity|]; split; [vm_compute; reflexivity|];
-     split; vm_compute; reflexivity).
+  apply bcode_b_sound. vm_compute. reflexivity.
+Qed.
+
+(* the same machine with two lines of input waiting *)
+Definition mc_with_input : machine :=
+  {| mc_cs := mc_cs mc_after_first; mc_vm := set_in (mc_vm mc_after_first) ["12"; "x y"]%string |}.
+
+Example C01_builtin_premises_hold_with_input : exists c m, bready vm_bf mc_with_input c m.
+Proof.
+  destruct C01_builtin_premises_hold as [c [m H]]. exists c, m.
+  exact (bready_set_in vm_bf mc_after_first c m _ H).
 Qed.
 
 Definition demo_calls : list node :=
@@ -414,6 +416,27 @@ Definition demo_calls : list node :=
    NBlock [NCall (NName "write") [NStr "before"]; NCall (NName "write") [NBin "/" (NInt 1) (NInt 0)];
            NCall (NName "write") [NStr "never"]];
    NIfElse (NBin "==" (NName "i") (NInt 3)) (NCall (NName "write") [NStr "three"]) (NCall (NName "toa") [NInt 0])].
+
+Definition demo_io : list node :=
+  [NAssign (NName "a") (NCall (NName "read") []);
+   NAssign (NName "n") (NCall (NName "aton") [NName "a"]);
+   NAssign (NName "s") (NCall (NName "toa") [NBin "*" (NName "n") (NInt 2)]);
+   NCall (NName "write") [NBin "+" (NName "s") (NStr "!")];
+   NCall (NName "read") [];
+   NAssign (NName "w") (NCall (NName "write") [NInt 1]);
+   NAssign (NName "b") (NCall (NName "read") []);
+   NList [NName "a"; NName "n"; NName "s"; NName "w"; NName "b"]].
+
+Example C01_demo_io_is_covered :
+  Forall (fun t => wstmt t = true /\ CompileWf.wfb t = true /\ nobs t = true) demo_io /\
+  map brief (run_all mc_with_input demo_io) =
+  [Some (Ok (VStr "12")); Some (Ok (VInt 12)); Some (Ok (VStr "24")); Some (Ok VNil); Some (Ok (VStr "x y"));
+   Some (Fail ErrNil); Some (Fail ErrRead); Some (Ok (VArr [VStr "12"; VInt 12; VStr "24"; VNil; VNil]))] /\
+  firstn 2 (v_out (mc_vm (end_of mc_with_input demo_io))) = ["1"; "24!"]%string /\
+  v_in (mc_vm (end_of mc_with_input demo_io)) = [].
+Proof.
+  split; [unfold demo_io; repeat constructor|]. split; [vm_compute; reflexivity|]. split; vm_compute; reflexivity.
+Qed.
 
 Example C01_demo_calls_are_covered :
   Forall (fun t => wstmt t = true /\ CompileWf.wfb t = true) demo_calls /\
